@@ -240,7 +240,12 @@ fn parse_integer(string: &str, require_sign: bool) -> Result<Option<Integer>, er
         }
 
         integer *= prefix.radix as IntegerValue;
-        integer += digit as IntegerValue;
+        // The check above only covers the multiplication
+        integer = integer
+            .checked_add(digit as IntegerValue)
+            .ok_or(error::Value::IntegerTooLarge {
+                max: i16::MAX as u16,
+            })?;
     }
 
     assert!(
